@@ -44,9 +44,14 @@ def matchStr : List Char → Rest → Option Rest
 def pstr (s : List Char) : PEGR R := fun _ pos r =>
   (matchStr s r).map fun r' => ⟨pos + s.length, r', []⟩
 
+/-- equality of two characters ignoring ASCII case (`eq_ignore_ascii_case`), without going through `Char.toLower` -/
+def isUpperAZ (c : Char) : Bool := decide (65 ≤ c.toNat ∧ c.toNat ≤ 90)
+def ciEq (x c : Char) : Bool :=
+  x == c || (isUpperAZ x && x.toNat + 32 == c.toNat) || (isUpperAZ c && c.toNat + 32 == x.toNat)
+
 def matchInsens : List Char → Rest → Option Rest
   | [], r => some r
-  | c :: cs, x :: r => if x.toLower = c.toLower then matchInsens cs r else none
+  | c :: cs, x :: r => if ciEq x c then matchInsens cs r else none
   | _ :: _, [] => none
 
 def pinsens (s : List Char) : PEGR R := fun _ pos r =>
